@@ -15,7 +15,9 @@ Definition ruler_text (lvl : nat) : str :=
   | _ => S "--------"
   end.
 
-Definition block_rows (b : block) : list row := map RItem b ++ [RText []].
+Definition elem_row (e : belem) : row :=
+  match e with BItem it => RItem it | BComment ws => RText (S "#" ++ words_text ws) end.
+Definition block_rows (b : block) : list row := map elem_row b ++ [RText []].
 Fixpoint blocks_rows (bs : list block) : list row :=
   match bs with [] => [] | b :: r => block_rows b ++ blocks_rows r end.
 Fixpoint sec_rows (lvl : nat) (s : gsec) : list row :=
@@ -36,8 +38,10 @@ Definition lines_text (ls : list str) : str := join [nlc10] (ls ++ [[]]).
 Definition page_text (pg : apage) : str := lines_text (map row_text (page_rows pg)).
 
 (* ---- rewriting items line-wise: h line item = the item that line holds afterwards ---- *)
-Fixpoint lmap_items (h : nat -> item -> item) (l : nat) (its : list item) : list item :=
-  match its with [] => [] | it :: r => h l it :: lmap_items h (Datatypes.S l) r end.
+Definition lmap_elem (h : nat -> item -> item) (l : nat) (e : belem) : belem :=
+  match e with BItem it => BItem (h l it) | BComment ws => BComment ws end.
+Fixpoint lmap_items (h : nat -> item -> item) (l : nat) (its : list belem) : list belem :=
+  match its with [] => [] | e :: r => lmap_elem h l e :: lmap_items h (Datatypes.S l) r end.
 Fixpoint lmap_blocks (h : nat -> item -> item) (l : nat) (bs : list block) : list block :=
   match bs with [] => [] | b :: r => lmap_items h l b :: lmap_blocks h (l + Datatypes.S (length b)) r end.
 Fixpoint lmap_sec (h : nat -> item -> item) (l : nat) (s : gsec) : gsec :=
